@@ -16,12 +16,21 @@ RULE = ("case = (source matrix, target matrix, request). Matrices: 0..4 ECUs fro
         "no value / '' / 'None'); a second stream derives the target's definitions from the source's (same name, same or other "
         "kind of object, default replaced by such a look-alike). A third stream makes histories: three matrices, up to three "
         "earlier copies/merges between them (a matrix that received frames is a source later on, the same source is used twice), "
-        "every step judged as a case of its own on the objects that carry the history. Non-trivial = distinct case in which the "
-        "target changes.")
+        "every step judged as a case of its own on the objects that carry the history. A fourth stream makes histories of one "
+        "source and one target over a network in which the same ECUs are referenced many times (2..3 receivers per signal): the "
+        "extraction of an ECU (copy_ecu_with_frames, with and without the clean-up of indirect ECUs) is followed by up to four "
+        "further copies of single frames / merges / extractions from the same source, and between the copies the target is "
+        "edited through the public API (del_ecu, rename_ecu, del_frame, each surrounded by lookups ecu_by_name / glob_ecus / "
+        "frame_by_id / frame_by_name of every name and identifier of the pools); the edits are part of the history only, the copy "
+        "that follows is the judged case. ECU attribute definitions (and explicit ECU attribute values) also use the names of the "
+        "members of the Ecu class - 'comment', 'name', 'attributes' - ; ECUs and frames come with and without a descriptive "
+        "comment. Non-trivial = distinct case in which the target changes.")
 PARTIAL = ["everything of a frame/signal/ECU that copying treats as a blob (layout, scaling, comment, value table) is compared as "
            "an opaque body string", "environment variables of merge are not modelled",
            "copy_signal and the direct_ecu_only clean-up are tied by correspondence only (no Spec predicate beyond 'source unchanged')"]
-ASSUMPTIONS = ["attribute names are not names of Frame/Signal fields; attribute values carry no surrounding blanks",
+ASSUMPTIONS = ["frame and signal attribute names are not names of Frame/Signal fields (Frame.attribute / Signal.attribute answer those with "
+               "the field); ECU attribute names may be names of Ecu members; attribute values carry no surrounding blanks",
+               "equal-named definitions of source and target are both ENUM or both not ENUM",
                "frame identifiers unique within a matrix; ECU names unique within a matrix"]
 TRUSTED = ["copy.deepcopy of a frame/ECU is modelled as a structural copy"]
 CORRESPONDENCE = "copy.copy_frame/copy_ecu_with_frames/copy_signal, CanMatrix.merge == Model/Copy.lean"
@@ -29,21 +38,31 @@ CORRESPONDENCE = "copy.copy_frame/copy_ecu_with_frames/copy_signal, CanMatrix.me
 ECUS = ["E1", "E2", "Gw", "Body", "Diag"]
 IDS = [(0x10, False), (0x11, False), (0x18FEF100, True), (0x20, False), (0x10, True)]
 ANAMES = ["GenA", "AttrB", "Mode", "Note"]
+# names of ECU attributes only: they are also names of members of the Ecu class (name, comment, attributes) - an ECU attribute is
+# looked up among the user attributes and the definitions only, whatever it is called.  Frame.attribute / Signal.attribute answer
+# the names of their own members first (see ASSUMPTIONS), so these names stay out of the frame and signal definitions.
+ECU_ANAMES = ["comment", "name", "attributes"]
 DEFS = {
     "GenA": [("INT 0 100", ["5", "7", None, "0", "05", "5.0", "0.0"]), ("INT 0 65535", ["7", "1", "7.0"])],
     "AttrB": [("STRING", ["x", "y", None, "", "X", "1.5", "1.50"]), ("FLOAT 0 10", ["1.5", None, "1.50", "15e-1"])],
     "Mode": [('ENUM "off","on","auto"', ["off", "on", None]), ('ENUM "on","eco"', ["on", "eco"]), ('ENUM "off","on"', ["off"]),
              ('ENUM "Off","On"', ["On", "Off"])],
     "Note": [("STRING", ["n1", None, "n2", "N1", "007", "7", "1e1", "10", "None"])],
+    # (as for the four names above, a name is either an ENUM in every variant or in none: a STRING definition of the source meeting
+    # an equal-named ENUM definition of the target leaves the copied value unlisted in the target's ENUM - unchanged code, reported)
+    "comment": [("STRING", ["not reviewed", None, "n/a", "c_s_Gw", "", "reviewed 2021"])],
+    "name": [('ENUM "E1","Gw","Body"', ["Gw", "E1", None]), ('ENUM "alias","Gw"', ["alias", "Gw"]), ('ENUM "E1","e1"', ["e1"])],
+    "attributes": [("STRING", ["{}", None, "a", "3"]), ("INT 0 10", ["3", None, "0"])],
 }
 VALUES = {"GenA": ["1", "5", "7", "42", "5.0", "07"], "AttrB": ["x", "z", "1.5", "1.50", "X"], "Mode": ["on", "off", "auto", "eco", "On"],
-          "Note": ["n1", "hello", "7", "007"]}
+          "Note": ["n1", "hello", "7", "007"],
+          "comment": ["reviewed 2021", "final", "draft", "c_s_E1", "n/a"], "name": ["E1", "Gw", "alias", "Diag"], "attributes": ["{}", "1", "a"]}
 
 
-def rand_defs(rng):
+def rand_defs(rng, extra=()):
     out = []
-    for a in ANAMES:
-        if rng.random() < 0.55:
+    for a in ANAMES + list(extra):
+        if rng.random() < (0.55 if a in ANAMES else 0.35):
             definition, defaults = rng.choice(DEFS[a])
             kind = definition.split(" ")[0]
             values = [v.strip('"') for v in definition[5:].split(",")] if kind == "ENUM" else []
@@ -52,20 +71,25 @@ def rand_defs(rng):
     return out
 
 
-def rand_attrs(rng, p=0.3):
-    return [[a, rng.choice(VALUES[a])] for a in ANAMES if rng.random() < p]
+def rand_attrs(rng, p=0.3, extra=()):
+    return [[a, rng.choice(VALUES[a])] for a in ANAMES + list(extra) if rng.random() < p]
 
 
-def gen_matrix(rng, tag):
-    ecus = [[e, "c_%s_%s" % (tag, e), rand_attrs(rng)] for e in ECUS if rng.random() < 0.5]
+def gen_matrix(rng, tag, dense=False):
+    """dense: a network in which the same few ECUs are referenced again and again (several receivers per signal, the receivers of one
+    signal are senders or receivers of the next), as a real bus has it"""
+    # an ECU without a descriptive comment is the usual thing in a real file: the body is empty then
+    ecus = [[e, "c_%s_%s" % (tag, e) if rng.random() < 0.7 else "", rand_attrs(rng, extra=ECU_ANAMES)] for e in ECUS if rng.random() < (0.7 if dense else 0.5)]
     rng.shuffle(ecus)
     frames = []
-    for (i, ext) in rng.sample(IDS, rng.randint(0, 4)):
+    nrx = [1, 2, 2, 3] if dense else [0, 1, 2]
+    for (i, ext) in rng.sample(IDS, rng.randint(2, 4) if dense else rng.randint(0, 4)):
         sigs = []
-        for k in range(rng.randint(1, 3)):
-            sigs.append(["s%d" % k, "%d:%d:%d|%s" % (8 * k, rng.randint(1, 8), rng.randint(0, 1), tag), rng.sample(ECUS, rng.choice([0, 1, 2])), rand_attrs(rng, 0.25)])
-        frames.append([i, ext, "F%x_%s" % (i, tag if rng.random() < 0.5 else "x"), "fc_%s_%x" % (tag, i), rng.sample(ECUS, rng.choice([0, 1, 1, 2])), rand_attrs(rng), sigs])
-    return {"ecus": ecus, "frames": frames, "free": [], "fd": rand_defs(rng), "sd": rand_defs(rng), "ed": rand_defs(rng)}
+        for k in range(rng.randint(2, 3) if dense else rng.randint(1, 3)):
+            sigs.append(["s%d" % k, "%d:%d:%d|%s" % (8 * k, rng.randint(1, 8), rng.randint(0, 1), tag), rng.sample(ECUS, rng.choice(nrx)), rand_attrs(rng, 0.25)])
+        frames.append([i, ext, "F%x_%s" % (i, tag if rng.random() < 0.5 else "x"), "fc_%s_%x" % (tag, i) if rng.random() < 0.85 else "",
+                       rng.sample(ECUS, rng.choice([0, 1, 1, 2])), rand_attrs(rng), sigs])
+    return {"ecus": ecus, "frames": frames, "free": [], "fd": rand_defs(rng), "sd": rand_defs(rng), "ed": rand_defs(rng, ECU_ANAMES)}
 
 
 def lookalike(rng, v):
@@ -97,12 +121,13 @@ def enum_def(values):
     return "ENUM " + ",".join('"%s"' % v for v in values)
 
 
-def twin_defs(rng, defs):
+def twin_defs(rng, defs, ecu_kind=False):
     """definitions for the target derived from definitions of the source: same name; same or another variant of the definition;
-    the default is the source's, a look-alike of it, or any of the pool"""
+    the default is the source's, a look-alike of it, or any of the pool.  ecu_kind: the definitions made are ECU definitions (the names of
+    ECU_ANAMES are names of ECU attributes only)"""
     out = []
     for a, definition, kind, values, default in defs:
-        if rng.random() < 0.3:
+        if rng.random() < 0.3 or (a in ECU_ANAMES and not ecu_kind):
             continue
         k = rng.random()
         if k < 0.25:
@@ -117,7 +142,7 @@ def twin_defs(rng, defs):
                 values = list(values) + [default]
                 definition = enum_def(values)
         out.append([a, definition, kind, list(values), default])
-    for d in rand_defs(rng):
+    for d in rand_defs(rng, ECU_ANAMES if ecu_kind else ()):
         if rng.random() < 0.3 and all(d[0] != o[0] for o in out):
             out.append(d)
     rng.shuffle(out)
@@ -130,7 +155,7 @@ def gen_twin(rng, src):
     kinds = ["fd", "sd", "ed"]
     frm = kinds if rng.random() < 0.75 else rng.sample(kinds, 3)
     for k, f in zip(kinds, frm):
-        tgt[k] = twin_defs(rng, src[f])
+        tgt[k] = twin_defs(rng, src[f], ecu_kind=(k == "ed"))
     return tgt
 
 
@@ -223,27 +248,64 @@ def gen_req(rng, src, tgt):
 NMATS = 3
 
 
-def gen_history(rng):
+def gen_edit(rng, desc):
+    """something a user does to a matrix between two copies (not judged here - C10, C11 and C17 are about these; what counts is that the
+    next copy meets a matrix with this past): an ECU deleted or renamed, a frame deleted, or just looked at"""
+    ecus = [e[0] for e in desc["ecus"]]
+    k = rng.random()
+    if ecus and k < 0.45:
+        return ["edit", "del_ecu", rng.choice(ecus)]
+    if ecus and k < 0.65:
+        old = rng.choice(ecus)
+        spare = [n for n in ECUS + [old + "_old", "Spare"] if n not in ecus]
+        return ["edit", "rename_ecu", old, rng.choice(spare)]
+    if desc["frames"] and k < 0.85:
+        f = rng.choice(desc["frames"])
+        return ["edit", "del_frame", f[0], f[1]]
+    return ["edit", "look"]
+
+
+def gen_history(rng, mode="mixed"):
     """three matrices and a sequence of copies/merges between them; every step is a case: source and target are described as they
-    are when the step starts, 'pre' tells how they got there (the observation replays it on real objects)"""
-    mats = [gen_matrix(rng, "s"), gen_matrix(rng, "t"), gen_matrix(rng, "u")]
+    are when the step starts, 'pre' tells how they got there (the observation replays it on real objects).
+    mode "mixed": any pair of the three at every step.  mode "pair": one source, one target, a network in which the ECUs are referenced
+    many times; an ECU extraction (copy_ecu_with_frames) is followed by single frames and merges from the same source, and between the
+    copies the target is edited through the public API (ECU deleted / renamed, frame deleted, lookups)."""
+    pair = mode == "pair"
+    mats = [gen_matrix(rng, "s", dense=pair), gen_matrix(rng, "t", dense=pair and rng.random() < 0.3), gen_matrix(rng, "u")]
     if rng.random() < 0.4:
         mats[1] = gen_twin(rng, mats[0])
+    if pair and rng.random() < 0.5:
+        mats[1] = dict(mats[1], ecus=[], frames=[])     # extraction into a new, empty matrix
     world = [build(m) for m in mats]
     steps = []
-    for _ in range(rng.randint(2, 4)):
+    njudged = 0
+    for _ in range(rng.randint(3, 5) if pair else rng.randint(2, 4)):
         si, ti = rng.sample(range(NMATS), 2)
-        if steps and rng.random() < 0.35:
+        if pair and rng.random() < 0.85:
+            si, ti = 0, 1
+        elif steps and rng.random() < 0.35:
             si = steps[-1][1]          # what was just filled is the source now
             ti = rng.choice([x for x in range(NMATS) if x != si])
         elif steps and rng.random() < 0.3:
             si, ti = steps[-1][0], steps[-1][1]   # the same pair again
+        if pair and njudged and rng.random() < 0.4:
+            # the target is edited before the next copy
+            edit = gen_edit(rng, snapshot(world[ti]))
+            apply_req(edit, world[si], world[ti])
+            steps.append([si, ti, edit])
         s_desc, t_desc = snapshot(world[si]), snapshot(world[ti])
         req = gen_req(rng, s_desc, t_desc)
+        if pair and njudged == 0 and rng.random() < 0.6:
+            # start with the extraction of an ECU, cleaned up or not
+            names = [e[0] for e in s_desc["ecus"]] or ECUS
+            req = ["ecuframes", rng.choice(names) if rng.random() < 0.7 else rand_glob(rng, names), rng.random() < 0.8, rng.random() < 0.8,
+                   rng.random() < 0.7, "glob"]
         c = {"src": s_desc, "tgt": t_desc, "req": req}
         if steps:
             c["pre"] = {"mats": mats, "steps": [list(s) for s in steps], "si": si, "ti": ti}
         yield {"op": "copy", "c": c}
+        njudged += 1
         try:
             apply_req(req, world[si], world[ti])
         except Exception:
@@ -266,6 +328,10 @@ def gen(rng, tier, shard, nshards):
     for _ in range({"quick": 480, "thorough": 4800}[tier] // nshards):
         for case in gen_history(rng):
             yield case
+    # histories of one source and one target: extraction of an ECU, then frames and merges, edits of the target in between
+    for _ in range({"quick": 480, "thorough": 4800}[tier] // nshards):
+        for case in gen_history(rng, "pair"):
+            yield case
 
 
 def neighbours(case, rng, shard, nshards):
@@ -284,12 +350,12 @@ def build(m):
             d = {"fd": db.frame_defines, "sd": db.signal_defines, "ed": db.ecu_defines}[kind][name]
             d.set_default(default)
     for name, body, attrs in m["ecus"]:
-        e = cm.Ecu(name, comment=body)
+        e = cm.Ecu(name, comment=body or None)
         for a, v in attrs:
             e.add_attribute(a, v)
         db.ecus.append(e)
     for i, ext, name, body, tx, attrs, sigs in m["frames"]:
-        fr = cm.Frame(name, arbitration_id=cm.ArbitrationId(i, ext), size=8, transmitters=list(tx), comment=body)
+        fr = cm.Frame(name, arbitration_id=cm.ArbitrationId(i, ext), size=8, transmitters=list(tx), comment=body or None)
         for a, v in attrs:
             fr.add_attribute(a, v)
         for sname, sbody, rx, sattrs in sigs:
@@ -335,6 +401,33 @@ def canon_case(c):
     return c
 
 
+def look(db):
+    """what a user (or an exporter) asks a matrix: every ECU by name, every frame by identifier; no effect on the matrix"""
+    for n in ECUS + ["Spare"]:
+        db.ecu_by_name(n)
+    db.glob_ecus("*")
+    for i, ext in IDS:
+        db.frame_by_id(cm.ArbitrationId(i, ext))
+    for f in list(db.frames):
+        db.frame_by_name(f.name)
+
+
+def apply_edit(req, db):
+    """an edit of a history (never a judged request): the matrix is looked at, edited through the public API, looked at again"""
+    look(db)
+    if req[1] == "del_ecu":
+        db.del_ecu(req[2])
+    elif req[1] == "rename_ecu":
+        db.rename_ecu(req[2], req[3])
+    elif req[1] == "del_frame":
+        fr = db.frame_by_id(cm.ArbitrationId(req[2], req[3]))
+        if fr is not None:
+            db.del_frame(fr)
+    elif req[1] != "look":
+        raise RuntimeError("unknown edit %r" % (req,))
+    look(db)
+
+
 def apply_req(req, src, tgt):
     """the request on the real objects; returns copy_frame's answer, "raised" for the declared refusal, else None"""
     try:
@@ -358,6 +451,8 @@ def apply_req(req, src, tgt):
                 canmatrix.copy.copy_ecu_with_frames(what, src, tgt, rx=req[2], tx=req[3], direct_ecu_only=req[4])
         elif req[0] == "signal":
             canmatrix.copy.copy_signal(req[1], src, tgt)
+        elif req[0] == "edit":
+            apply_edit(req, tgt)
     except AttributeError:
         return "raised"
     return None
@@ -422,6 +517,21 @@ def features(case, impl):
                             yield "equal-named define, defaults differ in notation of the number only"
                     except ValueError:
                         pass
+    for d in c["src"]["ed"]:
+        if d[0] in ECU_ANAMES:
+            yield "ECU define named like an Ecu member:" + d[0]
+    if any(a[0] in ECU_ANAMES for e in c["src"]["ecus"] for a in e[2]):
+        yield "ECU with an explicit attribute named like an Ecu member"
+    if any(e[1] == "" for e in c["src"]["ecus"]):
+        yield "source has an ECU without comment"
+    if c.get("pre"):
+        edits = [s[2] for s in c["pre"]["steps"] if s[2][0] == "edit"]
+        for e in edits:
+            yield "history:edit before=" + e[1]
+        if any(s[2][0] == "ecuframes" and s[2][4] and s[1] == c["pre"]["ti"] for s in c["pre"]["steps"]):
+            yield "history:the target was filled by an extraction with clean-up before"
+        if edits and c["pre"]["steps"][-1][2][0] == "edit":
+            yield "history:the target was edited just before"
     yield "history:steps before=%d" % (len(c["pre"]["steps"]) if c.get("pre") else 0)
     if c.get("pre") and any(s[1] == c["pre"]["si"] for s in c["pre"]["steps"]):
         yield "history:the source received copies before"
@@ -436,8 +546,22 @@ def nontrivial(case, impl):
 def shrink_candidates(case):
     c = case["c"]
     if c.get("pre"):
-        # first without the history (fresh objects built from the descriptions); a failure that needs the history is kept as it is
+        # first without the history (fresh objects built from the descriptions); then with one step of the history left out (source and
+        # target described as the shorter history leaves them)
         yield {"op": "copy", "c": {"src": c["src"], "tgt": c["tgt"], "req": c["req"]}}
+        pre = c["pre"]
+        for i in range(len(pre["steps"])):
+            steps = pre["steps"][:i] + pre["steps"][i + 1:]
+            if not steps:
+                continue
+            try:
+                world = [build(m) for m in pre["mats"]]
+                for si, ti, req in steps:
+                    apply_req(req, world[si], world[ti])
+                s_desc, t_desc = snapshot(world[pre["si"]]), snapshot(world[pre["ti"]])
+            except Exception:
+                continue
+            yield {"op": "copy", "c": {"src": s_desc, "tgt": t_desc, "req": c["req"], "pre": dict(pre, steps=steps)}}
         return
     for key in ("src", "tgt"):
         m = c[key]
